@@ -35,7 +35,7 @@ TreeOf(snap, rp) ==
   LET S == SeqToSet(snap)
   IN [p \in {n.p : n \in S} |->
         LET n == CHOOSE x \in S : x.p = p
-        IN [k |-> n.k, s |-> IF Inside(p, rp) THEN n.s ELSE -1, c |-> n.c, t |-> n.t]]
+        IN [k |-> n.k, s |-> IF Inside(p, rp) THEN n.s ELSE -1, c |-> n.c, t |-> n.t, ty |-> n.ty]]
 
 Pinned == {"F4", "F10", "F11", "F12", "F23", "F24", "F26"}
 Suspects == {"F10", "F11", "F12", "F24"}
